@@ -56,7 +56,7 @@ class ICase:
 
     def meta(self):
         m = {"suite": "indicator", "kind": self.kind, "entry": self.name, "variant": self.variant,
-             "sets": ["%s=%s" % kv for kv in self.sets], "line": self.line()[:8000]}
+             "sets": ["%s=%s" % kv for kv in self.sets], "line": self.line()[:400000]}
         m.update(self.m)
         return m
 
